@@ -279,6 +279,7 @@ func newServer(cache string) *server {
 	}
 	s.apq = &apqWatch{inner: lru.New[string](200)}
 	h.Use(s.spy)
+	h.Use(extension.Introspection{})
 	h.Use(extension.AutomaticPersistedQuery{Cache: s.apq})
 	h.SetRecoverFunc(func(ctx context.Context, err any) error {
 		s.recover.Add(1)
